@@ -23,6 +23,15 @@ def swarm_cfg_tt(rnd, **over):
     cfg['terminal_calls'] = rnd.random() < 0.15
     cfg['diverge'] = rnd.random() < 0.08
     cfg['doomed'] = rnd.random() < 0.3      # try bodies that mostly end in certain defeat
+    if rnd.random() < 0.12:
+        # tiny programs: whole-program conditions (only try/undo anywhere, a single defeat
+        # function, no preempt ...) need the absence of everything else
+        for f in ('stop', 'preempt', 'spec', 'preemptive_funcs', 'you_helpers', 'handler_try', 'canary', 'nihilism'):
+            cfg[f] = rnd.random() < 0.15
+        cfg['undo'] = True
+        cfg['defeat_funcs'] = True
+        cfg['loops_in_try'] = True
+        cfg['tiny'] = True
     if not (cfg['undo'] or cfg['stop']):
         cfg['undo'] = True
     cfg['W'] = rnd.choice((2, 2, 3, 4))
@@ -81,6 +90,8 @@ class TTGen:
         if c == 6 and self.arrs:
             a, ln_ = r.choice(self.arrs)
             return idx(a, bin_('%', self.int_expr(0), I(ln_)))
+        if c == 7 and r.random() < 0.5:
+            return call('o3', v)          # an ordinary function that divides (never by zero)
         return bin_(r.choice('+-'), v, self.int_expr(d - 1))
 
     def bool_expr(self, d=1):
@@ -154,8 +165,20 @@ class TTGen:
         if rec:
             args = [I(r.randrange(0, 3))] + args
         c = call(name, *args, V(self.arr_for_call), V(self.bits_for_call))
-        if ret == 'int' and self.ints and r.random() < 0.7:
-            return [setv(r.choice(self.ints), c)]
+        if ret == 'int':
+            k = r.randrange(8)
+            if k == 0:
+                return [write(c), write(C(' '))]
+            if k == 1:
+                return [if_(bin_(r.choice(('>', '<', '==')), c, I(r.randrange(0, 4))), block(self.marker()))]
+            if k == 2:
+                return [ex(call('!truth_is_defeat', bin_('==', c, I(r.randrange(0, 6)))))]
+            if k == 3:
+                return [decl('int', self.name('e'), c), self.marker()]
+            if k == 4 and self.ret_type == 'int' and self.feat('exits_from_try'):
+                return [if_(self.bool_expr(1), block(('ret', c)))]
+            if self.ints and r.random() < 0.8:
+                return [setv(r.choice(self.ints), c)]
         return [ex(c)]
 
     def preempt_block(self, exits):
@@ -223,7 +246,13 @@ class TTGen:
                 self.ro_ints.remove(i)
                 used = (self.preempt_budget_used(body)) * k
                 self.preempt_budget = max(0, save_budget - used)
-                out.append(for_up(i, I(0), I(k), *body))
+                if r.random() < 0.25:
+                    # the loop's continuation clause is a defeat call; the body advances the counter
+                    out.append(('for', decl('int', i, I(0)), bin_('<', V(i), I(k)),
+                                ex(call('!truth_is_defeat', bin_('>', V(i), I(r.randrange(0, 4))))),
+                                block(aug('+', i, I(1)), *body)))
+                else:
+                    out.append(for_up(i, I(0), I(k), *body))
             elif c == 10:
                 out.append(self.marker())
             else:
@@ -289,6 +318,11 @@ class TTGen:
             left = bin_('+', I(r.choice((1, 2))), I(r.choice((1, 2))))
             right = call('o1', self.int_expr(0))
         e = ('spec', left, right)
+        if self.arrs and r.random() < 0.3:
+            a, ln_ = r.choice(self.arrs)
+            tgt = idx(a, I(r.randrange(ln_)))
+            st = aug(r.choice('+-'), tgt, e) if r.random() < 0.4 else setv(tgt, e)
+            return [st, ex(call('dump', V(a))), write(V('g0')), write(C(' '))]
         if self.ints and r.random() < 0.6:
             return [setv(r.choice(self.ints), e), write(V('g0')), write(C(' '))]
         return [write(e), write(C(' ')), write(V('g0')), write(C(' '))]
@@ -405,11 +439,14 @@ class TTGen:
                  ret(bin_('+', bin_('*', V('a'), I(2)), I(1)))),
             func('int', 'o2', [('int', 'a')], aug('+', 'g0', I(1)), write(C('#')),
                  ret(bin_('-', V('a'), V('g0')))),
-            func('empty', '!canary', [], ex(call('!is_defeat'))),
+            func('int', 'o3', [('int', 'a')],
+                 ret(bin_('+', bin_('/', V('a'), I(2)), bin_('%', bin_('*', V('a'), I(3)), I(5))))),
             dump_func('int'), dump_func('bool'),
         ]
+        if self.feat('canary'):
+            std.append(func('empty', '!canary', [], ex(call('!is_defeat'))))
         if self.feat('defeat_funcs'):
-            for k in range(1, r.randrange(2, 5)):
+            for k in range(1, 2 if self.cfg.get('tiny') else r.randrange(2, 5)):
                 self.gen_defeat_func(k)
         if self.feat('you_helpers'):
             for k in range(1, r.randrange(1, 3)):
